@@ -102,7 +102,7 @@ static void runSeq(bool hints, std::stringstream& ls) {
     std::string op;
     bool first = true;
     while (ls >> op) {
-        if (!first) std::cout << " ";
+        if (!first) std::cout << " | ";
         first = false;
         char k = op[0];
         if (k == 'i') {
@@ -111,6 +111,7 @@ static void runSeq(bool hints, std::stringstream& ls) {
         } else if (k == 'e') {
             if constexpr (CanErase) {
                 std::cout << t.erase(parseKey(op, 2));
+                h.clear();  // BTreeDelete.h: hints must be cleared when nodes may have been deleted
             } else {
                 std::cout << "na";
             }
